@@ -265,7 +265,7 @@ Definition protect (mki_index : Z) : M Z :=
      let cs := rdbx_check (s_rdbx st) delta in
      (if negb (cs =? st_ok) && (negb (cs =? st_replay_fail) || negb (s_allow_repeat st))
       then exit_with cs else ret tt) ;;;
-     put_stream r (set_rdbx st (rdbx_add (s_rdbx st) delta))) ;;;
+     put_stream r (set_pending (set_rdbx st (rdbx_add (s_rdbx st) delta)) 0)) ;;;
   (* IVs *)
   let iv := rtp_iv (ck_alg (k_rtp_c k)) ssrc est in
   log_encrypt_iv (k_rtp_c k) (key_fp (k_rtp_c k) ++ iv) ;;;
@@ -401,5 +401,5 @@ Definition unprotect : M Z :=
   r <- materialize r0 ssrc ;;
   st2 <- get_stream r ;;
   (if adv then put_stream r (commit_advance st2 est)
-   else put_stream r (set_rdbx st2 (rdbx_add (s_rdbx st2) delta))) ;;;
+   else put_stream r (set_pending (set_rdbx st2 (rdbx_add (s_rdbx st2) delta)) 0)) ;;;
   ret (u64 (enc_start + enc_len)).
